@@ -177,7 +177,10 @@ PROPS["C09"] = dict(
     bounds="one step; unwind 10; strict off; no pending interrupt in the class harnesses, symbolic in c09_all",
     outside="the OS handler code that runs after TRAP/exception entry (supervisor mode by design)",
     assumptions=_K_ASSUME,
-    harnesses=_kfam("c09_", ["all"], ["virt_mem", "virt_alu", "virt_sys", "real_mem", "real_alu", "real_sys", "iofetch"], cover_tags=["c09"]),
+    # under real traps every fault is vectored to the OS, so "the step reports an error" is not
+    # coverable in the real_* classes: no generic cover is required of them
+    harnesses=_kfam("c09_", ["all"], ["virt_mem", "virt_alu", "virt_sys", "iofetch"], cover_tags=["c09"]) +
+              [dict(h, cover_tags=[]) for h in _kfam("c09_", [], ["real_mem", "real_alu", "real_sys"])],
 )
 PROPS["C14"] = dict(
     level="model_checking", jobs=3, heavy_jobs=2,
